@@ -498,7 +498,7 @@ class Povm(QOperation):
             matrix = np.zeros(size, dtype=np.complex128)
             for coefficient, basis in zip(v, self.composite_system.basis()):
                 matrix += coefficient * basis
-            matrix_list.append(matrix)
+            matrix_list.append(np.asarray(matrix))
         return matrix_list
 
     def matrices_with_sparsity(self) -> List[np.ndarray]:
@@ -534,7 +534,7 @@ class Povm(QOperation):
         for coefficient, basis in zip(vec, self.composite_system.basis()):
             matrix += coefficient * basis
 
-        return matrix
+        return np.asarray(matrix)
 
     def matrix_with_sparsity(self, index: Union[int, Tuple]) -> np.ndarray:
         """returns matrix of measurement.
